@@ -88,6 +88,8 @@ pub struct EvalOut {
     pub cur: BTreeMap<String, String>,
     /// jobs that were skipped first and turned into an upstream failure later
     pub flipped: BTreeSet<String>,
+    /// number of enabled driver actions at every step (for schedule enumeration)
+    pub branching: Vec<u8>,
 }
 
 impl EvalOut {
@@ -393,6 +395,18 @@ pub fn run_eval(w: &mut World, plan: &Plan, sched: &Sched, opts: &Opts) -> EvalO
                     }
                 }
             }
+            match g.next_job_ready_to_run() {
+                Some(j) => {
+                    if !ready.contains(&j) {
+                        res.v("C17", "next-job-not-in-ready-set", j);
+                    }
+                }
+                None => {
+                    if !ready.is_empty() {
+                        res.v("C17", "next-job-none-but-ready-set-nonempty", format!("{:?}", ready));
+                    }
+                }
+            }
             if eng_running != my_running {
                 res.v("C17", "running-vs-driver", format!("engine {:?} driver {:?}", eng_running, my_running));
             }
@@ -616,7 +630,12 @@ pub fn run_eval(w: &mut World, plan: &Plan, sched: &Sched, opts: &Opts) -> EvalO
             t
         } else {
             let byte = sched.choices.get(nactions).cloned().unwrap_or(0) as usize;
-            vec![actions[byte * actions.len() >> 8].clone()]
+            res.branching.push(actions.len().min(255) as u8);
+            if sched.exact {
+                vec![actions[byte.min(actions.len() - 1)].clone()]
+            } else {
+                vec![actions[byte * actions.len() >> 8].clone()]
+            }
         };
         for (a, j) in todo {
         nactions += 1;
